@@ -13,7 +13,8 @@ BORDER = {'zero': 0, 'three': 3, 'negative': -1, 'fraction': 1.5}
 COLOUR = {'name': 'darkblue', 'hex3': '#36c', 'hex6': '#3366CC', 'tuple': (10, 20, 30), 'hex2': '#12', 'hex5': '#12345', 'hex_bad_digit': '#ggg',
           'unknown_name': 'nocolour', 'tuple2': (1, 2), 'tuple_256': (0, 0, 256), 'tuple_negative': (-1, 0, 0), 'alpha_2': (0, 0, 0, 2.0), 'empty': '',
           'hex_sign': '#+1+2+3', 'hex_space': '# 1 2 3', 'hex_minus': '#-1-2-3', 'hex_underscore': '#12_345', 'hex_0x': '#0x1234',
-          'tuple5': (10, 20, 30, 255, 0), 'tuple6': (10, 20, 30, 40, 50, 60), 'tuple0': (), 'tuple1': (7,), 'alpha_256': (0, 0, 0, 256), 'alpha_neg': (0, 0, 0, -1)}
+          'tuple5': (10, 20, 30, 255, 0), 'tuple6': (10, 20, 30, 40, 50, 60), 'tuple0': (), 'tuple1': (7,), 'alpha_256': (0, 0, 0, 256), 'alpha_neg': (0, 0, 0, -1), 'alpha_255f': (0, 0, 0, 255.0)}
+TWIN = {'alpha_2': (0, 0, 0, 2), 'alpha_255f': (0, 0, 0, 255)}      # valid colours that compare equal to a malformed one
 BINARY = props_routes.BINARY
 CONTENT = 'C14 refusal test'
 
@@ -40,12 +41,19 @@ def save_obs(vec):
     kind = {'known': a['kind'], 'known_upper': a['kind'].upper(), 'unknown': 'foo', 'empty': ''}[a['kindc']]
     buf = io.BytesIO() if a['kind'] in BINARY else io.StringIO()
     err = None
+    if a.get('prior') == 'twin':
+        # the same process has just serialised the valid colour that compares equal to the malformed one
+        for knd in ('png', 'svg', a['kind']):
+            try:
+                qr.save(io.BytesIO() if knd in BINARY else io.StringIO(), kind=knd, **dict(kw, **{a['which']: TWIN[a['colour']]}))
+            except Exception:  # noqa
+                pass
     try:
         qr.save(buf, kind=kind, **kw)
     except Exception as e:  # noqa
         err = e
     return {'_vec': vec, 'a': a, 'seen': classify(err), 'exit': 0, 'output_written': True, 'stderr_is_library_message': True, 'traceback': False,
-            '_what': f"save(kind={kind!r}, {kw})", '_msg': str(err)[:100] if err else ''}
+            '_what': f"save(kind={kind!r}, {kw})" + (' after the equal valid colour' if a.get('prior') == 'twin' else ''), '_msg': str(err)[:100] if err else ''}
 
 
 CLI = {'ok_file': (['--scale', '2'], True), 'ok_terminal': ([], False), 'ok_lower_micro_version': (['--version', 'm2'], True),
